@@ -548,6 +548,17 @@ class Tdf:
 
         comment = comment if comment is not None else old_entry.comment
 
+        # make sure the new block can be added before the old one is removed:
+        # it must be encodable, its comment too, and once the old block is gone
+        # no live block may follow the first free slot
+        newBlock._write(BytesIO())
+        BTSString.write(256, comment)
+        remaining = [e.type for e in self.entries if e is not old_entry]
+        remaining.append(BlockType.unusedSlot)
+        firstUnused = remaining.index(BlockType.unusedSlot)
+        if any(t != BlockType.unusedSlot for t in remaining[firstUnused + 1 :]):
+            raise IOError("All unused slots must be at the end of the file")
+
         self.remove_block(newBlock.type)
         self.add_block(newBlock, comment)
 
